@@ -136,7 +136,10 @@ class P(Prop):
                "Track.copy is a deep copy (the model is functional: it cannot write its input; the harness compares a full snapshot of the input "
                "track before and after every call: observations' identity, positions, times, feature rows, feature dict, uid/tid/base)",
                "z coordinates and timestamps are not in the model (the algorithms never read them); the harness checks they travel unchanged",
-               "feature rows are as long as the feature dict says (C01's invariant)"]
+               "feature rows are as long as the feature dict says (C01's invariant)",
+               "CPython's recursion limit (1000 frames) is outside the model: douglas_peucker recurses once per split level, T3 proves the depth is at most len(track), "
+               "and a track of more than ~1000 fixes shaped so that every split peels one fix raises RecursionError (findings/C16.json, class dp-recursion-depth; "
+               "the harness generates tracks of at most 300 fixes)"]
     rule = ("[list-level streams] tracks of 1..9 fixes on integer lattices of side 2..6 (collinear runs, consecutive duplicates, revisited positions, closed loops "
             "forced with stated probabilities), quarter-step dyadic and 2-decimal float tracks; tolerances 1e-3..1e3 (ints and floats), random "
             "3-digit tolerances and tolerances equal to the float distance of a fix to the chord (the dmax == eps boundary); every fix carries its "
@@ -145,7 +148,8 @@ class P(Prop):
             "triangle_area are also compared point-wise. "
             "[Track-object stream `trk`] the same tracks (and the empty track) plus tracks of 10..40 fixes with 2-decimal coordinates (noisy line, closed circle, "
             "random walk with pauses, stop cluster with an excursion, zig-zag), as Track objects with uid/tid/base set or not, 0..3 named features (NaN values "
-            "included), optional z; called directly, through simplify(track, tol, mode), simplify with keywords and verbose=False, simplify's default mode, "
+            "included), optional z, timestamps equal to the index or unsorted / repeated / all equal (the observation is then identified by its `tag` feature); a few "
+            "tracks of 100..300 fixes; called directly, through simplify(track, tol, mode), simplify with keywords and verbose=False, simplify's default mode, "
             "tracklib.simplify; optionally after 1-2 earlier simplification calls on the SAME track object or on another one (state left behind); compared with "
             "the Track-level model: kept observations, positions, feature rows, feature dict and column indices, uid/tid/base; the input track's full snapshot must be "
             "unchanged. The oracle additionally requires every returned observation to carry the feature values of the input observation and the input to be left "
@@ -231,7 +235,7 @@ class P(Prop):
             if not t > 0:
                 t = rng.choice(TOLS)
         else:
-            t = float("%.3g" % (10 ** rng.uniform(-3, 3)))
+            t = float("%.3g" % (10 ** rng.uniform(-6, 6)))
         if isinstance(t, float) and t ** 2 != t * t:       # keep `eps **= 2` == eps*eps (see trusted)
             t = rng.choice(TOLS)
         return t
@@ -239,7 +243,7 @@ class P(Prop):
     # ---- Track-object stream
     def long_track(self, rng):
         """10..40 fixes with 2-decimal float coordinates: noisy line, closed circle, random walk, stop cluster + excursion, zig-zag"""
-        n = rng.randrange(10, 41)
+        n = rng.randrange(10, 41) if rng.random() < 0.97 else rng.randrange(100, 301)
         shape = rng.choice(["line", "circle", "walk", "stop", "zigzag"])
         r2 = lambda v: round(v, 2)
         pts = []
@@ -318,6 +322,17 @@ class P(Prop):
              "via": self.rand_via(rng, algo), "pre": pre, "style": style}
         if rng.random() < 0.3:
             c["zs"] = [rng.choice([0, 1, -2, 10.5, 100]) for _ in range(n)]
+        if names and names[0] == "tag" and rng.random() < 0.35:
+            # timestamps that are not the index: unsorted, repeated, or all equal -- the observation is then identified by its `tag` feature
+            r = rng.random()
+            if r < 0.4:
+                c["ts"] = [rng.randrange(0, max(2, n // 2 + 1)) * 10 for _ in range(n)]
+            elif r < 0.7:
+                c["ts"] = [1000 - 7 * i for i in range(n)]
+            elif r < 0.85:
+                c["ts"] = [500] * n
+            else:
+                c["ts"] = [rng.randrange(0, 100000) for _ in range(n)]
         return c
 
     def wild_case(self, rng):
@@ -423,6 +438,7 @@ class P(Prop):
             t["algo"] = case["algo"]
             t["features"] = len(case["names"])
             t["pre_calls"] = len(case.get("pre", []))
+            t["timestamps"] = "index" if not case.get("ts") else ("repeated" if len(set(case["ts"])) < len(case["ts"]) else "unsorted")
         return t
 
     def nontrivial(self, case):
@@ -445,7 +461,8 @@ class P(Prop):
 
     def mk_trk(self, case):
         zs = case.get("zs") or [0] * len(case["xs"])
-        obs = [self.Obs(self.ENU(fv(x), fv(y), z), self.T.readUnixTime(i)) for i, (x, y, z) in enumerate(zip(case["xs"], case["ys"], zs))]
+        ts = case.get("ts") or list(range(len(case["xs"])))
+        obs = [self.Obs(self.ENU(fv(x), fv(y), z), self.T.readUnixTime(t)) for x, y, z, t in zip(case["xs"], case["ys"], zs, ts)]
         tr = self.Track(obs, case["uid"], case["tid"], case["base"])
         if obs:
             for j, name in enumerate(case["names"]):
@@ -552,7 +569,11 @@ class P(Prop):
         out = self.snapshot(res)
         inp_ids = set(before["ids"])
         base = out["base"]
-        return {"kept": [int(round(t)) for t in out["t"]], "xyz": out["xyz"], "rows": out["rows"],
+        if case.get("ts"):                                    # observations are identified by their first feature (`tag` = index)
+            kept = [int(r[0]) if (r and isinstance(r[0], (int, float)) and r[0] == r[0] and float(r[0]).is_integer()) else -1 for r in out["rows"]]
+        else:
+            kept = [int(round(t)) for t in out["t"]]
+        return {"kept": kept, "t": out["t"], "xyz": out["xyz"], "rows": out["rows"],
                 "names": list(out["dico"].keys()), "cols": list(out["dico"].values()),
                 "uid": out["uid"], "tid": out["tid"], "base": base if (base is None or isinstance(base, int)) else repr(base),
                 "input_changed": self.snap_diff(before, after),
@@ -712,9 +733,12 @@ class P(Prop):
             return "%s output is not a subsequence of the input in its original order: indices %s" % (name, kept)
         if k == "trk":
             zs = case.get("zs") or [0] * n
+            ts = case.get("ts") or list(range(n))
             for j, i in enumerate(kept):
                 if not same_rows([out["xyz"][j]], [[xs[i], ys[i], zs[i]]]):
                     return "%s moved observation %d from %s to %s" % (name, i, [xs[i], ys[i], zs[i]], out["xyz"][j])
+                if out["t"][j] != ts[i]:
+                    return "%s changed the timestamp of observation %d from %s to %s" % (name, i, ts[i], out["t"][j])
         else:
             for j, i in enumerate(kept):
                 if out["xy"][j] != [xs[i], ys[i]]:
@@ -778,6 +802,8 @@ class P(Prop):
                     r[0] = j                                # the first feature stays the index
             if case.get("zs"):
                 c["zs"] = case["zs"][:i] + case["zs"][i + 1:]
+            if case.get("ts"):
+                c["ts"] = case["ts"][:i] + case["ts"][i + 1:]
         return c
 
     def shrink(self, case):
@@ -795,9 +821,11 @@ class P(Prop):
                     yield dict(case, pre=case["pre"][:i] + case["pre"][i + 1:])
             if case.get("zs"):
                 yield dict(case, zs=None)
+            if case.get("ts"):
+                yield dict(case, ts=None)
             if len(case["names"]) > 1:
                 yield dict(case, names=case["names"][:1], rows=[r[:1] for r in case["rows"]])
-            if case["names"]:
+            if case["names"] and not case.get("ts"):
                 yield dict(case, names=[], rows=[[] for _ in case["rows"]])
             if (case["uid"], case["tid"], case["base"]) != (0, 0, None):
                 yield dict(case, uid=0, tid=0, base=None)
